@@ -108,7 +108,7 @@ class EngineBase(metaclass=ABCMeta):
             status = "Crossed right interface!"
             success = True
             stop = True
-        if path.length == path.maxlen:
+        elif path.length == path.maxlen:
             status = "Max. path length exceeded!"
             success = False
             stop = True
